@@ -475,6 +475,56 @@ for arts in ([[0]], [[0], [0]], [[0, 0]], [[0], [0, 1]]):
 if hits == 0:
     ck.inconclusive.append('R3 vacuous: no path used a stale read')
 
+# ---- R7: the collector racing a writer: a writer's store_chunk of existing content runs entirely between the collector's read of
+# that chunk's record and its delete (stale-read encoding on the collector's read)
+ck.declare('R7_collector_does_not_take_a_chunk_a_writer_just_referenced', 'gc_cycle with a writer\'s store_chunk (content equal to a stored, unreferenced, old chunk) entirely inside the window between the collector\'s read of that chunk and its delete',
+           'afterwards every chunk the writer lists is still stored with a count that covers the reference')
+ex.extra_models['TensorStore::scan'] = m_scan_chunks
+ex.extra_models['gc::current_timestamp'] = lambda c: Int(z3.BitVec('gc_now', 64), False)
+raced = 0
+for arts in ([], [[1]]):
+    for k in range(2):
+        st = ex.new_state()
+        Wd = World(st, arts)                      # chunk 0 is stored with count 0 (an orphan the collector may take)
+        kv0 = kv_of(st)
+        snap_keys, snap_vals = list(kv0.keys), [copy_td(v) for v in kv0.vals]
+        w = writer(st, 'WB')
+        ch, hid = new_chunk(st, 'chunkB')
+        st.assume(hid == Wd.cid[0])
+        resB = run(st, 'BlobWriter::store_chunk', [ref(w), ch])
+        ck.note_path_problem(resB, f'R7 writer arts={arts}')
+        for rb in resB:
+            if rb.status != 'return' or rb.retval.variant != 'Ok':
+                continue
+            s1 = rb.st
+            b_locked = [x[1] for x in s1.notes if x[0] == 'ref_lock']
+            s1.env['stale'] = {'at': k, 'keys': snap_keys, 'vals': snap_vals}
+            s1.env['rmw_gets'] = 0
+            s1.env['a_puts'] = []
+            s1.env['stale_used'] = False
+            gc = Struct('GarbageCollector', {F('GarbageCollector', 'store'): s1.roots['store']}, lazy='GC')
+            gc.load(F('GarbageCollector', 'config'), 'GcConfig', s1).fields[F('GcConfig', 'batch_size')] = Int(U64(16), False)
+            body = Struct('{async fn body of GarbageCollector::gc_cycle()}', {0: ref(gc), '__state': 0})
+            resA = run(s1, 'GarbageCollector::gc_cycle::{closure#0}', [Struct('Pin', {0: ref(body)}), ref(Opaque('Context'))])
+            ck.note_path_problem(resA, f'R7 gc window {k} arts={arts}')
+            for ra in resA:
+                if ra.status != 'return' or not ra.st.env.get('stale_used'):
+                    continue
+                raced += 1
+                f = ra.st
+                chunks, al = read_state(f)
+                pend = pending_of(f, 'WB')
+                hyp = z3.BoolVal(True)
+                wkey, wlocked = f.env.get('window', (None, False))
+                if wlocked:
+                    from mirsym.models_std import str_equal
+                    hyp = z3.And([z3.Not(str_equal(f, bk, wkey)) for bk in b_locked] + [z3.BoolVal(True)])
+                ck.require(ex, 'R7_collector_does_not_take_a_chunk_a_writer_just_referenced', ra.pc, hyp, refs_match(chunks, al, pend),
+                           lambda m, arts=arts, k=k: {'blob_op': 'concurrent', 'artifacts': arts, 'a': 'gc', 'b': 'store', 'window': k, 'a_target': [], 'b_target': [0], 'orphan': 0}, lambda m, w_: 'collector-took-referenced-chunk')
+del ex.extra_models['TensorStore::scan']
+if raced == 0:
+    ck.inconclusive.append('R7 vacuous: the collector never read a stale record')
+
 # ---- R6: the chunker.  BlobWriter::write / finish are async without suspension points; their poll functions are executed with
 # store_chunk, hashing and the metadata writer stubbed (store_chunk records the chunk's bytes).
 ck.declare('R6_chunks_concatenate_to_the_written_bytes', 'write(d1), write(d2), finish with chunk size 1..3, |d1| in 0..4, |d2| in 0..3, bytes symbolic',
